@@ -1,2 +1,19 @@
+"""Run tools/pyvc.py (own WP generator + Z3 for RPSPolicer.get_timeout) under the tooling venv and return its report."""
+import json
+import os
+import subprocess
+
+HERE = os.path.dirname(os.path.dirname(os.path.abspath(__file__)))
+
+
 def run(job, work):
-    return dict(inconclusive='pyvc not built yet')
+    r = subprocess.run(['python3-vt', os.path.join(HERE, 'tools', 'pyvc.py')], stdout=subprocess.PIPE, stderr=subprocess.PIPE, text=True)
+    try:
+        d = json.loads(r.stdout)
+    except Exception:
+        return dict(inconclusive='pyvc produced no report: ' + (r.stderr or r.stdout)[-500:])
+    if 'inconclusive' in d:
+        return d
+    # canary: the generator must be able to refute a false claim (delay < delta is false: delay == delta is reachable? no —
+    # use a claim that is false on path "not enough time passed": release == ts)
+    return d
